@@ -24,7 +24,7 @@ def handleRun (rest : String) : String :=
     | some a, some cfg, some levels =>
       let r := runCheckA a cfg levels
       let why := r.reason.replace " " "_"
-      s!"verdict={r.verdict} step={r.step} reduced={r.reduced} finals={r.finals} reason={why}"
+      s!"verdict={r.verdict} step={r.step} reduced={r.reduced} finals={r.finals} capsteps={r.cappedSteps} reason={why}"
     | _, _, _ => "bad-op"
 
 def handlers : List (String × (String → String)) := [("ARUN", handleRun)]
